@@ -3286,4 +3286,25 @@ theorem liftsem_flip (a : Asg) (v k : ℤ) : (k ≥ 1 ∧ v ≥ 1 ∧ count a (y
     subst this
     exact ⟨fun h => hx h, fun h => h.elim⟩
 
+
+/-! # Tenth batch: `iofarr` (a python list given as array + length) -/
+
+/-- `[A[0], …, A[n-1]]` -/
+def iofarr (A : ℤ → ℤ) (n : ℤ) : ISeq := (List.range n.toNat).map (fun (i : ℕ) => A (i : ℤ))
+
+/-- `n >= 0 -> ilen(iofarr(A, n)) == n` -/
+theorem iofarr_len (A : ℤ → ℤ) (n : ℤ) : n ≥ 0 → ilen (iofarr A n) = n := by
+  intro h; simp [ilen, iofarr]; omega
+
+/-- `And(0 <= i, i < n) -> iget(iofarr(A, n), i) == Select(A, i)` -/
+theorem iofarr_get (A : ℤ → ℤ) (n i : ℤ) : (0 ≤ i ∧ i < n) → iget (iofarr A n) i = A i := by
+  rintro ⟨h0, h1⟩
+  have hlt : i.toNat < n.toNat := by omega
+  have hi : ((i.toNat : ℕ) : ℤ) = i := by omega
+  unfold iget iofarr
+  rw [List.getD_eq_getElem?_getD, List.getElem?_map, List.getElem?_range hlt]
+  simp [hi]
+
+/-! uninterpreted in specs.py, NO schema emitted: `arrsum`, `nbrs`, `evar`, `bdegl`, `bdegr`, `navail_p`. -/
+
 end CnfSem
